@@ -8,6 +8,9 @@ LEVEL = "other"
 
 
 def run(chk, tier):
+    import gtab
+    # generator tables: primitive name -> C++ type / size / wrapper class (value_type and signedness of what getters return)
+    gtab.check(chk, sbeppc_facts(), which=("keys", "sizes", "wrapper"))
     plan = [("vprims_le", "c++17"), ("vprims_be", "c++17"), ("vprims_be", "c++20")]
     if tier == "thorough":
         plan += [("vprims_le", "c++20"), ("vprims_be", "c++11"), ("vprims_be", "c++14"), ("vdims", "c++17"), ("vheaders", "c++17"),
